@@ -3,8 +3,10 @@
 pub mod serde_json {
     use vstd::prelude::*;
     verus! {
-    #[derive(Clone)]
     pub struct Value { pub filler: u8 }
+    impl Clone for Value {
+        fn clone(&self) -> (r: Self) ensures r == *self { Value { filler: self.filler } }
+    }
     } // verus!
 }
 pub use serde_json::Value;
